@@ -62,6 +62,17 @@ CHECKS['C04'] = {
     'note': 'Trusted: A3 arg-max = first maximiser in numpy and torch; torch tensor code is outside the VC generator, hence no unbounded claim; 2-D input branch not covered.',
 }
 
+CHECKS['C05'] = {
+    'level': 'other',
+    'technique': 'hybrid: deductive proof of the helper contracts of force_alignment.py (z3) + bounded run-time contract of force_align/align_text against brute force over all frame labelings',
+    'text': ('PROVED for all inputs: hmm_trans_from_string (exact transition structure), complete_state_seq, initial_cost, final_cost, compute_update '
+             '(one min-plus step: lower bound over all allowed transitions + attained by the recorded predecessor), backtrack (follows the back-pointers). '
+             'BOUNDED: force_align collapses to the labels with the brute-force minimum cost, fails iff no finite alignment / blank among labels; align_text '
+             'positions increasing and most confident in block — on a finite grid of cost matrices (incl. +inf, ties, repeats, both blank positions). '
+             'The DP invariant of viterbi_align (act_cost = V(t,.)) is not yet proved.'),
+    'note': 'Trusted: pyvc; A4 numba.jit = Python semantics; np.where(A != inf) modelled as two index arrays; brute-force oracle specs/viterbi.py.',
+}
+
 NOT_APPLICABLE = {
     'C20': ('equality up to round-off of float tensors produced by torch C++ kernels through module-resident caches across calls: no contract '
             'within reach can state it over reals, no finite domain makes a bounded check exhaustive; a random differential test would be a different technique (DESIGN.md §6)'),
